@@ -174,6 +174,7 @@ class C08(PipelineCheck):
                 out.add('branch!=alone', 'tee_map', {'join': tee['join'], 'branch': bi, 'branch_ops': b,
                                                      'in_tee': a[:40], 'alone': b_[:40]})
         out.digest = '|'.join(dig) + repr(final.terminal)
+        out.states = tuple(ctx.extra.get('states', ()))
         n_in = sum(1 for r in ctx.taps.get('%s/%d' % (path, i), []) if r[2] == 'N')
         reused = False
         if not plain:
